@@ -50,6 +50,9 @@ enum SiteObs {
     Error(String),
     Done,
     Panic(String),
+    /// a kind of site this harness does not know (a code change may add one): opaque at site level,
+    /// the spectrum-level comparisons still apply
+    Other,
 }
 
 impl SiteObs {
@@ -61,6 +64,7 @@ impl SiteObs {
             SiteObs::Error(_) => "error",
             SiteObs::Done => "done",
             SiteObs::Panic(_) => "panic",
+            SiteObs::Other => "other",
         }
     }
 }
@@ -88,6 +92,8 @@ fn drive(samples: &[String], cfg: &Config, items: &[Item], calls: usize) -> Resu
                 ReadStatus::Read(Site::InsufficientData) => SiteObs::Insufficient,
                 ReadStatus::Error(e) => SiteObs::Error(e.to_string()),
                 ReadStatus::Done => SiteObs::Done,
+                #[allow(unreachable_patterns)]
+                ReadStatus::Read(_) => SiteObs::Other,
             };
             let skipped: Vec<(String, &'static str)> = reader
                 .current_skipped_samples()
@@ -154,7 +160,7 @@ impl Prop for C11 {
                 perm,
                 callset,
                 cfg,
-                container: *rng.pick(&[Container::Vcf, Container::Vcf, Container::Bcf]),
+                container: *rng.pick(&[Container::Vcf, Container::VcfGz, Container::Bcf]),
             };
         }
         let (mut callset, cfg) = gen::gen_callset(&mut rng, &p);
@@ -517,14 +523,18 @@ fn run_l2(callset: &CallSet, cfg: &Config, split: usize, perm: &[usize], contain
         let mut cs = callset.clone();
         cs.recs = idx.iter().filter_map(|&i| callset.recs.get(i).cloned()).collect();
         let vcf = cs.to_vcf();
+        // compressed containers: one block, or many small ones (parts that span several blocks)
         let layout = Layout {
-            blocks: vec![],
+            blocks: if split % 2 == 0 { vec![] } else { vec![97; 400] },
             eof_marker: true,
             level: 6,
-        bcf_minor: 0, no_contig_lines: false,
+            bcf_minor: 0,
+            no_contig_lines: false,
         };
         gen::encode(&vcf, container, &layout).map(|x| x.0).unwrap_or(vcf)
     };
+    // the thread count is part of the configuration under which additivity must hold
+    let threads = ["1", "2", "4", "1"][(split + perm.len()) % 4];
     let n = callset.recs.len();
     let inputs = [
         sub((0..n).collect()),
@@ -538,6 +548,8 @@ fn run_l2(callset: &CallSet, cfg: &Config, split: usize, perm: &[usize], contain
         args.extend(cfg.cli_args());
         args.push("--precision".into());
         args.push("12".into());
+        args.push("--threads".into());
+        args.push(threads.into());
         args.push("@DIR@/in.dat".into());
         let child = Child {
             args,
